@@ -2,6 +2,7 @@ import JsightVerif.Model.Project
 import JsightVerif.Gen.Facts
 import JsightVerif.Props.C12
 import JsightVerif.Proofs.ScanNest
+import JsightVerif.Proofs.Progress
 /-
   C01 — building is total.  What is *proved* here is the scanner layer: for every file and every
   answer of the schema oracle the scanner never reaches one of its own crash sites that concern
@@ -42,6 +43,36 @@ theorem C01_scanner_no_stack_crash_any_fuel (env : Env) (fuel n : Nat) (site : S
   have := C12.C12_stack_discipline env fuel n _ h
   simp only [StackFault, not_or] at this
   exact this
+
+/-! ### the scanner never hangs (Proofs/Progress.lean) -/
+
+/-- **C01 (scanner termination), every file, every oracle**: scanning a file never runs out of fuel.
+    The byte loop of `Scanner.Next` gets `4·|file| + 16` iterations per call in the model and a scan
+    gets `5·(4·|file| + 16)` calls; the Go code has no such bound, so running out of either in the
+    model is a hang of the real scanner.  The two places where the scanner moves its cursor backwards
+    (`curIndex -= 2` in stateAnnotationSign2, `curIndex--` in stateDescriptionTextNewline) are
+    accepted by the abstract interpreter only at the furthest position reached so far and only after
+    that position has advanced since the last rewind; the regenerated table passes this check in
+    every reachable abstract state (the reach certificate, re-checked by the kernel). -/
+theorem C01_scanner_terminates (data : Array UInt8) (lenAt : BodyKind → Nat → LenAnswer) :
+    (scanFile data lenAt).2 ≠ .fault .fuel := by
+  have hinit := goodP_init (mkEnv data lenAt) reachAt .stateRoot C12.root_in_reach
+  have := scanFrom_prog (mkEnv data lenAt) Gen.prog reachInputs reachAt C12.table_ok (scanFuel (mkEnv data lenAt))
+    (4 * (mkEnv data lenAt).size + 11) (by simp only [scanFuel]; omega) (scanCalls (mkEnv data lenAt))
+    _ (Sc.init .stateRoot) [] hinit (by simp only [scanCalls, scanFuel, findCap]; omega)
+  exact this
+
+/-- the same call by call, as the core uses the scanner: from every scanner state that a scan of the
+    file can be in (covered by the certificate with byte-loop potential `≤ 4·|file| + 11`), one call
+    of `Next` with the model's fuel does not run out of it, and leaves such a state behind -/
+theorem C01_next_never_hangs (env : Env) (B : Nat) (s : Sc St)
+    (hg : GoodP env reachAt (4 * env.size + 11) B s) :
+    ProgOk env reachAt (4 * env.size + 11) B (next env Gen.prog (scanFuel env) s) :=
+  next_prog env Gen.prog reachInputs reachAt C12.table_ok (scanFuel env) _ B s hg (by simp only [scanFuel]; omega)
+
+/-- non-vacuity: the initial scanner state of every file is such a state -/
+example (env : Env) : GoodP env reachAt (4 * env.size + 11) (5 * (4 * env.size + 11)) (Sc.init .stateRoot) :=
+  goodP_init env reachAt .stateRoot C12.root_in_reach
 
 /-! ### the build stage never dereferences nil (Model/Build.lean, tied by op `cat`) -/
 
